@@ -1,0 +1,39 @@
+//go:build verif
+
+package blockstore
+
+// Contracts for the verification machinery in /verif (comment-only; see /verif/DESIGN.md).
+//
+// pend(b) is the ghost end of the payload: the write position just after the last section that has been
+// indexed.  The store invariant RI(b) is  wn(b.dataWriter) == pend(b).
+
+//@ func (*ReadWrite).PutMany
+//@   requires ri: wn(b.dataWriter) == pend(b)
+//@   requires writer: b.dataWriter != nil && objinv(b.dataWriter)
+//@   requires unlocked [C08]: held(b.ronly.mu) == 0
+//@   let werr := call[util.LdWrite#0]
+//@   loop[0] invariant ri [C04,C16]: wn(b.dataWriter) == pend(b)
+//@   loop[0] invariant writer_ok [C16]: objinv(b.dataWriter)
+//@   loop[0] invariant open [C04]: !old(b.ronly.closed) && !old(b.finalized)
+//@   call[store.ShouldPut#0] assert options [C04]: arg0 == b.idx && arg1 == c && arg2 == b.opts.MaxIndexCidSize && arg3 == b.opts.StoreIdentityCIDs && arg4 == b.opts.BlockstoreAllowDuplicatePuts && arg5 == b.opts.BlockstoreUseWholeCIDs
+//@   call[util.LdWrite#0] assert section [C01,C05]: ref(arg0) == ref(b.dataWriter) && len(arg1) == 2 && bytesval(arg1[0]) == cidbytes(c) && ref(arg1[1]) == blockdata(bl)
+//@   call[InsertionIndex.InsertNoReplace#0] assert record [C01,C03,C05]: ref(arg0) == ref(b.idx) && arg1 == c && arg2 == wrap_u64(wrap_s64(athead(0, wn(b.dataWriter)) - wbase(b.dataWriter)))
+//@   call[InsertionIndex.InsertNoReplace#0] assert after_write [C06,C16]: werr == nil
+//@   ghost after call[InsertionIndex.InsertNoReplace#0]: pend(b) := wn(b.dataWriter)
+//@   ensures ri_on_return [C16]: wn(b.dataWriter) == pend(b)
+//@   ensures released [C08]: held(b.ronly.mu) == 0
+//@   ensures closed_err [C04]: old(b.ronly.closed) ==> err == errClosed && wn(b.dataWriter) == old(wn(b.dataWriter)) && nrec(b.idx) == old(nrec(b.idx))
+//@   ensures finalized_err [C04]: !old(b.ronly.closed) && old(b.finalized) ==> err == errFinalized && wn(b.dataWriter) == old(wn(b.dataWriter)) && nrec(b.idx) == old(nrec(b.idx))
+
+//@ func (*ReadWrite).initWithRoots
+//@   requires writer: b.dataWriter != nil
+//@   let hdr := call[carv1.WriteHeader#0]
+//@   call[carv1.WriteHeader#0] assert header [C01,C05]: ref(arg1) == ref(b.dataWriter) && arg0.Version == 1 && arg0.Roots == roots
+//@   ensures v1_no_pragma [C05]: !v2 ==> writes(b.f) == old(writes(b.f))
+
+//@ func (*ReadWrite).finalizeReadOnlyWithoutMutex
+//@   requires writer: b.opts.WriteAsCarV1 || b.dataWriter != nil
+//@   call[store.Finalize#0] assert args [C05]: ref(arg0) == ref(b.f) && arg1 == b.header && ref(arg2) == ref(b.idx) && arg3 == wrap_u64(wrap_s64(wn(b.dataWriter) - wbase(b.dataWriter))) && arg4 == b.opts.StoreIdentityCIDs && arg5 == b.opts.IndexCodec
+//@   ensures finalized [C04]: err == nil ==> b.finalized
+//@   ensures closed_err [C04]: !b.opts.WriteAsCarV1 && old(b.ronly.closed) ==> err != nil && writes(b.f) == old(writes(b.f))
+//@   ensures twice_err [C04]: !b.opts.WriteAsCarV1 && !old(b.ronly.closed) && old(b.finalized) ==> err != nil && writes(b.f) == old(writes(b.f))
